@@ -68,7 +68,7 @@ def selftests(pid, live, rej, sc):
     return tracecheck.selftest("Trace_DataGen", TRACE_CFG % pid, out, sc, "st" + pid)
 
 
-def run(pid, tier, seed, *, mc, cfgs, assumptions, level="model_checking", rule="", extra_leg=None):
+def run(pid, tier, seed, *, mc, cfgs, assumptions, level="model_checking", rule="", extra_leg=None, apalache=None):
     """mc: list of dict(module, cfg, tag, expect='pass' | ('fail', needle), workers)"""
     t0 = time.time()
     sc = core.Scratch(pid)
@@ -87,6 +87,7 @@ def run(pid, tier, seed, *, mc, cfgs, assumptions, level="model_checking", rule=
                 core.tlc_must_fail(r, m["tag"], m["expect"][1])
             mc_info.append(dict(run=m["tag"], module=m["module"], distinct=r.distinct, generated=r.generated,
                                 depth=r.depth, expect=m.get("expect", "pass"), errors=r.errors[:2], wall_s=round(r.wall, 1)))
+        n_apa = core.run_apalache(apalache[0], apalache[1], sc) if apalache else 0
         traces = core.run_drivers("harness.drv_datagen:run_case", cfgs)
         crashed = [t for t in traces if "tb" in t]
         if crashed:
@@ -132,7 +133,7 @@ def run(pid, tier, seed, *, mc, cfgs, assumptions, level="model_checking", rule=
             rejected_by_clause=clauses,
             traces_by_kind=kinds,
             known_finding_hits=n_known,
-            binding_selftests_rejected=nself,
+            binding_selftests_rejected=nself, apalache_inductive_obligations_discharged=n_apa,
             rule=rule, **leg_stats,
         )
         core.write_evidence(pid, tier, seed, level, cov, assumptions, time.time() - t0, n_new)
